@@ -163,8 +163,7 @@ def judge(ctx, case, obs, mouts):
         if isinstance(m, dict) and "err" in m:
             ctx.violation("correspondence", f"{op}:model-error", f"model rejected the request: {m['err']}", case, obs, m)
         elif "err" in obs:
-            if not objnone:
-                ctx.violation("correspondence", f"{op}:impl-raises", "implementation raises where the model is defined", case, obs, m)
+            pass  # already an oracle violation with this input as the replay
         else:
             exp = m if op == "rank" else [cvals[i] for i in m]
             got = obs["out"]
@@ -176,39 +175,6 @@ def judge(ctx, case, obs, mouts):
     ctx.case_done(case, nontrivial)
 
 
-def run(ctx, driver):
-    if ctx.replay is not None:
-        cases = [ctx.replay["case"]] if "kind" in ctx.replay.get("case", {}) else []
-    else:
-        cases = gen_cases(ctx)
-    common.setup_impl_env()
-    run_cases(ctx, driver, cases)
-
-
-def run_cases(ctx, driver, cases):
-    reqs, spans, observed = [], [], []
-    for c in cases:
-        o = impl(c)
-        r = model_requests(c, o)
-        spans.append((len(reqs), len(r)))
-        reqs += r
-        observed.append(o)
-    outs = driver.run(reqs) if driver is not None else None
-    for c, o, (s, k) in zip(cases, observed, spans):
-        judge(ctx, c, o, outs[s:s + k] if outs is not None else None)
-
-
-def search(ctx):
-    """Widened oracle-only search (no model needed): more seeds, same generators."""
-    import random
-    for extra in range(1, 6):
-        sub = common.Ctx(ctx.prop, ctx.tier, ctx.seed * 1000 + extra)
-        cases = gen_cases(sub)
-        run_cases(sub, None, cases)
-        ctx.evaluations += sub.evaluations
-        found = [v for v in sub.violations if v.kind == "oracle"]
-        known = {e["signature"] for e in common.load_known(ctx.prop)}
-        found = [v for v in found if v.signature not in known]
-        if found:
-            ctx.violations.extend(found)
-            return
+import sys
+run = common.default_run(sys.modules[__name__])
+search = common.default_search(sys.modules[__name__])
